@@ -34,6 +34,11 @@ CHECKS = [
            'dense outputs match the exact flow for all theta in [0,1] to their order; Hamiltonian twins and the centre-manifold RK copy have identical B-series; the fixed-step driver chains steps correctly; '
            'the constant-solution shortcut fires only for an exactly zero span.',
   'note': 'B-series theorem turns the decided coefficient identities into "order p for every smooth right-hand side"; tables read as the rationals/decimals nearest the stored doubles, eps 1e-13 (1e-10 for the DOP853 dense table); global error of adaptive runs not claimed'},
+ {'id': 'C10',
+  'technique': 'symbolic execution of the direction wrapper, the propagator and the real driver loops with kernels/controllers uninterpreted (contracts as solver constraints); per-path obligations discharged by z3',
+  'level': 'Directed right-hand side = documented negation for every flip set; returned times = forward * grid for fixed, adaptive and symplectic methods; fixed-step and symplectic drivers chain signed steps on any monotone grid; '
+           'adaptive loops (RK45, DOP853, generic and Hamiltonian) never pass the end time, keep h in (0, max_step], advance only when the documented error norm <= 1, return y0 first, and a decreasing grid is rejected.',
+  'note': 'adaptive loops unwound to 2 kernel calls (3 thorough) with state dimension 1; kernels, field, _select_initial_step/_error_scale/_pi_*_factor are uninterpreted with their contracts; accuracy of round trips is C02'},
 ]
 _BUILT = {c['id'] for c in CHECKS}
 NOT_APPLICABLE = [
